@@ -116,3 +116,25 @@ Theorem C01_repo_order_cli_update :
   ].
 Proof. exact repo_order_cli_update. Qed.
 Print Assumptions C01_repo_order_cli_update.
+
+(* ---- Proofs.SemverE2E ---- *)
+From Coq Require Import List Bool NArith ZArith Arith.
+From BV Require Import Lib.PyStr Lib.Decimal Model.V2 Model.Pep440 Model.Cli Proofs.DottedFacts Proofs.SemverE2E.
+Import ListNotations.
+(* semver_test_cmd :
+   forall (today : Z) (fl : flags) (ma mi pa : N) (d : option Z), only_part_flags fl -> f_major fl || f_minor fl || f_patch fl = true -> test_cmd_v2 today (dotted [ma; mi; pa]) P fl (option_map Some d) None = Exit0 (dotted (semver_next fl ma mi pa)) (dotted (semver_next fl ma mi pa)) /\ ver_lt (dotted [ma; mi; pa]) (dotted (semver_next fl ma mi pa)) = true *)
+Theorem C01_semver_test_cmd : ltac:(let t := type of semver_test_cmd in exact t).
+Proof. exact semver_test_cmd. Qed.
+Print Assumptions C01_semver_test_cmd.
+
+(* semver_parse_eq :
+   forall (today : Z) (ma mi pa : N), parse_version_info today (dotted [ma; mi; pa]) P = POk (sv_vinfo today (Z.of_N ma) (Z.of_N mi) (Z.of_N pa)) *)
+Theorem C01_semver_parse_eq : ltac:(let t := type of semver_parse_eq in exact t).
+Proof. exact semver_parse_eq. Qed.
+Print Assumptions C01_semver_parse_eq.
+
+(* to_pep440_dotted :
+   forall ns : list N, ns <> [] -> to_pep440 (dotted ns) = dotted ns *)
+Theorem C01_to_pep440_dotted : ltac:(let t := type of to_pep440_dotted in exact t).
+Proof. exact to_pep440_dotted. Qed.
+Print Assumptions C01_to_pep440_dotted.
